@@ -3,7 +3,9 @@
    inductive grammar, and the proof that every such byte string is accepted by
    the model of util::DecodeUTF8 ([utf8_valid]).  The per-row facts are finite
    sweeps over the regenerated constants (vm_compute), lifted by range lemmas. *)
-From PP Require Import Fold.FoldDefs Fold.FoldProofs.
+From PP Require Import Fold.Utf8Scan Unicode.Utf8Enc.
+(* (no dependency on Fold/FoldProofs.v: the sweeps below are expensive and must only be
+   re-run when the scanner model or its regenerated constants change) *)
 From Coq Require Import ZifyBool.
 Local Open Scope Z_scope.
 
@@ -23,6 +25,14 @@ Inductive WF : list Z -> Prop :=
     WF (b0 :: b1 :: b2 :: b3 :: r)
 | wf_4c b1 b2 b3 r : rng 128 143 b1 -> rng 128 191 b2 -> rng 128 191 b3 -> WF r -> WF (244 :: b1 :: b2 :: b3 :: r).
 
+Lemma count_cps_S f bs : bs <> [] ->
+  count_cps (S f) bs =
+  match decode_utf8 bs with
+  | None => None
+  | Some (_, n) => match count_cps f (skipn (Z.to_nat n) bs) with Some k => Some (S k) | None => None end
+  end.
+Proof. destruct bs; [congruence | reflexivity]. Qed.
+
 (* ---------- ranges as lists ---------- *)
 Definition zrange (lo hi : Z) : list Z := map (fun k => lo + Z.of_nat k) (seq 0 (Z.to_nat (hi - lo + 1))).
 
@@ -32,13 +42,22 @@ Proof.
   apply in_seq. lia.
 Qed.
 
+(* the scanner consumes exactly n bytes of bs, and encoding the code point it returns
+   gives bs back *)
 Definition dec_is (n : Z) (bs : list Z) : bool :=
-  match decode_utf8 bs with Some (_, m) => m =? n | None => false end.
+  match decode_utf8 bs with Some (c, m) => (m =? n) && bytes_eqb (utf8_of_cp c) bs | None => false end.
 
-Lemma dec_is_some n bs : dec_is n bs = true -> exists c, decode_utf8 bs = Some (c, n).
+Lemma bytes_eqb_eq a : forall b, bytes_eqb a b = true -> a = b.
+Proof.
+  induction a as [|x a IH]; intros [|y b] H; try discriminate; [reflexivity|].
+  simpl in H. apply andb_true_iff in H. destruct H as [H1 H2]. apply Z.eqb_eq in H1. subst. f_equal. apply IH. exact H2.
+Qed.
+
+Lemma dec_is_some n bs : dec_is n bs = true -> exists c, decode_utf8 bs = Some (c, n) /\ utf8_of_cp c = bs.
 Proof.
   unfold dec_is. destruct (decode_utf8 bs) as [[c m]|]; [|discriminate].
-  intros H. apply Z.eqb_eq in H. subst. exists c. reflexivity.
+  intros H. apply andb_true_iff in H. destruct H as [H1 H2]. apply Z.eqb_eq in H1. subst. exists c.
+  split; [reflexivity | apply bytes_eqb_eq; exact H2].
 Qed.
 
 (* ---------- the sweeps (finite; over the regenerated constants) ---------- *)
@@ -120,7 +139,7 @@ Qed.
 Lemma count_step pre rest n k fuel : dec_is n pre = true -> Z.of_nat (length pre) = n -> (1 <= length pre)%nat ->
   count_cps fuel rest = Some k -> count_cps (S fuel) (pre ++ rest) = Some (S k).
 Proof.
-  intros Hd Hl Hp Hr. destruct (dec_is_some n pre Hd) as [c Hc].
+  intros Hd Hl Hp Hr. destruct (dec_is_some n pre Hd) as [c [Hc _]].
   assert (pre ++ rest <> []) as Hne by (destruct pre; [simpl in Hp; lia | discriminate]).
   rewrite (count_cps_S fuel _ Hne), (decode_extend pre rest c n Hc Hl).
   replace (skipn (Z.to_nat n) (pre ++ rest)) with rest.
@@ -179,3 +198,79 @@ Qed.
 (* every Table 3-7 byte string is valid input in the sense of the C07 theorems *)
 Theorem wf_utf8_valid bs : WF bs -> utf8_valid bs = true.
 Proof. intros H. unfold utf8_valid. destruct (wf_accepted bs H) as [k Hk]. rewrite Hk. reflexivity. Qed.
+
+(* ---------- the same for the conversion to code points, with the round trip ---------- *)
+Lemma cps_fuel_S' f bs : bs <> [] ->
+  cps_of_utf8_fuel (S f) bs =
+  match decode_utf8 bs with
+  | None => None
+  | Some (c, n) => match cps_of_utf8_fuel f (skipn (Z.to_nat n) bs) with Some r => Some (c :: r) | None => None end
+  end.
+Proof. destruct bs; [congruence | reflexivity]. Qed.
+
+Lemma cps_mono : forall fuel bs cs, cps_of_utf8_fuel fuel bs = Some cs -> cps_of_utf8_fuel (S fuel) bs = Some cs.
+Proof.
+  induction fuel as [|f IH]; intros bs cs H.
+  - destruct bs; [simpl in *; exact H | discriminate].
+  - destruct bs as [|b r]; [simpl in *; exact H|]. set (l := b :: r) in *.
+    rewrite cps_fuel_S' in H by discriminate. rewrite cps_fuel_S' by discriminate.
+    destruct (decode_utf8 l) as [[c n]|]; [|discriminate].
+    destruct (cps_of_utf8_fuel f (skipn (Z.to_nat n) l)) as [k'|] eqn:E; [|discriminate].
+    rewrite (IH _ _ E). exact H.
+Qed.
+
+Lemma cps_more fuel fuel' bs cs : cps_of_utf8_fuel fuel bs = Some cs -> (fuel <= fuel')%nat -> cps_of_utf8_fuel fuel' bs = Some cs.
+Proof. intros H Hle. induction Hle; [exact H | apply cps_mono; assumption]. Qed.
+
+Lemma cps_step pre rest n cs fuel : dec_is n pre = true -> Z.of_nat (length pre) = n -> (1 <= length pre)%nat ->
+  cps_of_utf8_fuel fuel rest = Some cs /\ utf8_of_cps cs = rest ->
+  exists cs', cps_of_utf8_fuel (S fuel) (pre ++ rest) = Some cs' /\ utf8_of_cps cs' = pre ++ rest.
+Proof.
+  intros Hd Hl Hp [Hr Hu]. destruct (dec_is_some n pre Hd) as [c [Hc He]].
+  assert (pre ++ rest <> []) as Hne by (destruct pre; [simpl in Hp; lia | discriminate]).
+  exists (c :: cs). rewrite (cps_fuel_S' fuel _ Hne), (decode_extend pre rest c n Hc Hl).
+  replace (skipn (Z.to_nat n) (pre ++ rest)) with rest.
+  - rewrite Hr. split; [reflexivity|]. unfold utf8_of_cps in *. simpl. rewrite He, Hu. reflexivity.
+  - rewrite <- Hl, Nat2Z.id. rewrite skipn_app, skipn_all, Nat.sub_diag. reflexivity.
+Qed.
+
+Theorem wf_roundtrip bs : WF bs -> exists cs, cps_of_utf8 bs = Some cs /\ utf8_of_cps cs = bs.
+Proof.
+  unfold cps_of_utf8.
+  induction 1 as [| b0 r R0 _ [k IH] | b0 b1 r R0 R1 _ [k IH] | b1 b2 r R1 R2 _ [k IH] | b0 b1 b2 r R0 R1 R2 _ [k IH]
+                 | b1 b2 r R1 R2 _ [k IH] | b0 b1 b2 r R0 R1 R2 _ [k IH] | b1 b2 b3 r R1 R2 R3 _ [k IH]
+                 | b0 b1 b2 b3 r R0 R1 R2 R3 _ [k IH] | b1 b2 b3 r R1 R2 R3 _ [k IH]].
+  - exists []. split; reflexivity.
+  - apply (cps_step [b0] r 1 k (length r)); try reflexivity; try (simpl; lia); [|exact IH].
+    apply (sweep1_at _ _ row1). apply in_zrange. exact R0.
+  - apply (cps_step [b0; b1] r 2 k (S (length r))); try reflexivity; try (simpl; lia).
+    + apply (sweep2_at _ _ _ _ row2); apply in_zrange; assumption.
+    + destruct IH as [I1 I2]. split; [eapply cps_more; [exact I1 | lia] | exact I2].
+  - apply (cps_step [224; b1; b2] r 3 k (S (S (length r)))); try reflexivity; try (simpl; lia).
+    + apply (sweep3_at _ _ _ _ _ _ row3a); [left; reflexivity | |]; apply in_zrange; assumption.
+    + destruct IH as [I1 I2]. split; [eapply cps_more; [exact I1 | lia] | exact I2].
+  - apply (cps_step [b0; b1; b2] r 3 k (S (S (length r)))); try reflexivity; try (simpl; lia).
+    + apply (sweep3_at _ _ _ _ _ _ row3b); apply in_zrange; assumption.
+    + destruct IH as [I1 I2]. split; [eapply cps_more; [exact I1 | lia] | exact I2].
+  - apply (cps_step [237; b1; b2] r 3 k (S (S (length r)))); try reflexivity; try (simpl; lia).
+    + apply (sweep3_at _ _ _ _ _ _ row3c); [left; reflexivity | |]; apply in_zrange; assumption.
+    + destruct IH as [I1 I2]. split; [eapply cps_more; [exact I1 | lia] | exact I2].
+  - apply (cps_step [b0; b1; b2] r 3 k (S (S (length r)))); try reflexivity; try (simpl; lia).
+    + apply (sweep3_at _ _ _ _ _ _ row3d); apply in_zrange; assumption.
+    + destruct IH as [I1 I2]. split; [eapply cps_more; [exact I1 | lia] | exact I2].
+  - apply (cps_step [240; b1; b2; b3] r 4 k (S (S (S (length r))))); try reflexivity; try (simpl; lia).
+    + apply (sweep4_at _ _ _ _ _ _ _ _ row4a); [left; reflexivity | | |]; apply in_zrange; assumption.
+    + destruct IH as [I1 I2]. split; [eapply cps_more; [exact I1 | lia] | exact I2].
+  - apply (cps_step [b0; b1; b2; b3] r 4 k (S (S (S (length r))))); try reflexivity; try (simpl; lia).
+    + apply (sweep4_at _ _ _ _ _ _ _ _ row4b); apply in_zrange; assumption.
+    + destruct IH as [I1 I2]. split; [eapply cps_more; [exact I1 | lia] | exact I2].
+  - apply (cps_step [244; b1; b2; b3] r 4 k (S (S (S (length r))))); try reflexivity; try (simpl; lia).
+    + apply (sweep4_at _ _ _ _ _ _ _ _ row4c); [left; reflexivity | | |]; apply in_zrange; assumption.
+    + destruct IH as [I1 I2]. split; [eapply cps_more; [exact I1 | lia] | exact I2].
+Qed.
+
+(* Table 3-7 bytes are bytes *)
+Lemma wf_bytes_ok bs : WF bs -> bytes_okb bs = true.
+Proof.
+  induction 1; unfold rng in *; repeat (apply bytes_okb_cons; split; [lia|]); try assumption; reflexivity.
+Qed.
